@@ -2,7 +2,7 @@
     an [unimplemented!] arm of either instruction selector (the part of C13 that is a theorem;
     determinism, reuse and compile-time growth are monitored, see DESIGN §4 C13). *)
 From Coq Require Import ZArith List Bool.
-From HPBF Require Import Cell IO BC Forms FormsProofs.
+From HPBF Require Import Cell IO BC Forms FormsProofs BCWf BCWfProofs.
 Open Scope Z_scope.
 
 Theorem C13_jit_covers_all : forall w i, pre_shape i = true -> jit_covers (reorder w i) = true.
@@ -15,6 +15,14 @@ Theorem C13_reorder_imm_last : forall w d a b d' a' b',
   pre_shape (Add d a b) = true -> reorder w (Add d a b) = Add d' a' b' -> is_imm a' = false.
 Proof. exact reorder_imm_last. Qed.
 
+(** the JIT's save/restore code ([emit_pre_call]/[emit_post_call]) unwraps the register of every
+    bit of the live mask from 4 up; temporaries from 11 up have no register.  A mask accepted by
+    [live_regs_ok 11] has no such bit, so that [unwrap] cannot panic; the C13 check runs
+    [live_regs_ok] on the bytecode of every generated program *)
+Theorem C13_live_masks_name_registers : forall num_regs p, live_regs_ok num_regs p = true -> 0 <= num_regs ->
+  forall pc l t, nth_error (bp_live p) pc = Some l -> Z.testbit l t = true -> 0 <= t < Z.min num_regs 16.
+Proof. exact live_regs_ok_sound. Qed.
+
 Example C13_nonvacuous :
   reorder 8 (Add (Tmp 3) (Imm 5) (Tmp 3)) = Add (Tmp 3) (Tmp 3) (Imm 5) /\
   reorder 8 (Sub (Mem 1) (Tmp 2) (Imm 1)) = Add (Mem 1) (Tmp 2) (Imm 255) /\
@@ -25,3 +33,4 @@ Proof. vm_compute. repeat split; reflexivity. Qed.
 Print Assumptions C13_jit_covers_all.
 Print Assumptions C13_int_covers_all.
 Print Assumptions C13_reorder_imm_last.
+Print Assumptions C13_live_masks_name_registers.
